@@ -334,7 +334,8 @@ func (s *State) evalNode(node any) object.Object { //nolint:funlen,gocognit,gocy
 		if f.Type() == object.ERROR {
 			return f
 		}
-		args, oerr := s.evalExpressions(node.Arguments)
+		// The arguments of a function are values (type() and other extensions see references).
+		args, oerr := s.evalExpressions(node.Arguments, f.Type() == object.FUNC)
 		if oerr != nil {
 			return *oerr
 		}
@@ -344,12 +345,9 @@ func (s *State) evalNode(node any) object.Object { //nolint:funlen,gocognit,gocy
 		name := node.Function.Value().Literal()
 		return s.applyFunction(name, f, args)
 	case *ast.ArrayLiteral:
-		elements, oerr := s.evalExpressions(node.Elements)
+		elements, oerr := s.evalExpressions(node.Elements, true) // values, not live references to outer variables.
 		if oerr != nil {
 			return *oerr
-		}
-		for i := range elements {
-			elements[i] = object.Value(elements[i]) // store values, not live references to outer variables.
 		}
 		return object.NewArray(elements)
 	case *ast.MapLiteral:
@@ -946,7 +944,9 @@ func (s *State) extendFunctionEnv(
 	return env, newBody, nil
 }
 
-func (s *State) evalExpressions(exps []ast.Node) ([]object.Object, *object.Error) {
+// evalExpressions evaluates a list; with values set, each result is the value at that time: a later element
+// or argument may change the variable it came from ([g, h()] or f(g, h()) where h assigns g).
+func (s *State) evalExpressions(exps []ast.Node, values bool) ([]object.Object, *object.Error) {
 	result := object.MakeObjectSlice(len(exps)) // not that this one can ever be huge but, for consistency.
 	for _, e := range exps {
 		evaluated := s.evalInternal(e)
@@ -958,7 +958,11 @@ func (s *State) evalExpressions(exps []ast.Node) ([]object.Object, *object.Error
 			// [break] or f(continue): a control statement isn't a value that can be stored or passed.
 			return nil, s.Errorfp("unexpected %s in expression list", rv.ControlType.String())
 		}
-		result = append(result, object.CopyRegister(evaluated))
+		evaluated = object.CopyRegister(evaluated)
+		if values {
+			evaluated = object.Value(evaluated)
+		}
+		result = append(result, evaluated)
 	}
 	return result, nil
 }
